@@ -117,12 +117,19 @@ class NNStub:
     and arbitrary correlation per cell and iteration; records what it was
     given"""
 
-    def __init__(self, ctx, n_ref):
+    def __init__(self, ctx, n_ref, plain=False):
         self.ctx, self.n_ref, self.calls = ctx, n_ref, []
+        self.plain = plain
 
     def __call__(self, baseline_array, query_array, **k):
         it = len(self.calls)
         nq = query_array.shape[0]
+        if self.plain:
+            # long runs (vote-counter width): no fresh symbols per
+            # iteration, the single reference row gets every vote
+            nb, cr = [0] * nq, [0.5] * nq
+            self.calls.append((baseline_array, query_array, nb, cr))
+            return arr(self.ctx, nb, int), arr(self.ctx, cr, float)
         nb = [self.ctx.int(f"nn[{it},{i}]", 0, self.n_ref - 1)
               for i in range(nq)]
         cr = [self.ctx.real(f"nc[{it},{i}]", -1, 1) for i in range(nq)]
@@ -164,7 +171,7 @@ def h_tally(ctx, case):
     q = reals(ctx, 'q', (nq, nm))
     r = reals(ctx, 'r', (nr, nm))
     Q, R = arr(ctx, q), arr(ctx, r)
-    stub = NNStub(ctx, nr)
+    stub = NNStub(ctx, nr, plain=(iters > 300))
     patch(el.distance_utils, 'correlation_nearest_neighbors', stub)
     if ctx.mode == 'sym':
         from symx.npshim import RngModel, RANGE_CHECK
@@ -179,6 +186,11 @@ def h_tally(ctx, case):
         return 'EXC'
     ctx.reach('returned')
     ctx.check(len(stub.calls) == iters, 'one kernel call per iteration')
+    if iters > 300:
+        # long run: only the vote counter is of interest
+        ctx.check(ctx.eq(votes[0, 0], iters),
+                  'the vote counter holds the full count')
+        return 'ok'
     for it, (B, Qs, nb, cr) in enumerate(stub.calls):
         S = list(rng.choices[it])
         n = len(S)
@@ -379,8 +391,7 @@ HARNESSES = [
                             [(1, 1, 2, 3), (2, 2, 3, 2), (3, 1, 3, 3),
                              (4, 1, 2, 2), (5, 1, 2, 1), (4, 2, 3, 2),
                              (1, 1, 1, 255), (1, 1, 1, 256), (1, 1, 1, 257),
-                             (2, 1, 1, 300), (1, 1, 1, 65535),
-                             (1, 1, 1, 65536)]],
+                             (1, 1, 1, 65535), (1, 1, 1, 65536)]],
             funcs=['election.tally_votes'],
             stubs=['rng.choice(replace=False) -> symbolic duplicate-free '
                    'ordered sample (numpy contract)',
@@ -399,16 +410,18 @@ HARNESSES = [
                    {'cells': 1, 'refs': 2, 'genes': 3},
                    {'cells': 2, 'refs': 1, 'genes': 3}],
             thorough_cases=[{'cells': 1, 'refs': 2, 'genes': 3},
-                            {'cells': 1, 'refs': 3, 'genes': 3},
                             {'cells': 2, 'refs': 2, 'genes': 2},
-                            {'cells': 1, 'refs': 2, 'genes': 4}],
+                            {'cells': 2, 'refs': 1, 'genes': 3},
+                            {'cells': 1, 'refs': 3, 'genes': 2}],
             funcs=['distance_utils.correlation_nearest_neighbors',
                    '_correlation_nearest_neighbors_cpu', 'correlation_dot',
                    '_correlation_dot_cpu',
                    '_subtract_mean_and_normalize_cpu'],
             stubs=['sqrt -> fresh s>=0 with s*s==x (exact real)'],
-            bounds='<=2 query rows x <=2 (3) reference rows x <=3 (4) '
-                   'genes, entries symbolic reals in [-8,8]',
+            bounds='<=2 query rows x <=2 (3) reference rows x <=3 genes '
+                   '(3 reference rows only with 2 genes; 4 genes and 3x3 '
+                   'exceeded the NRA budget: z3 unknown), entries symbolic '
+                   'reals in [-8,8]',
             outside='floating-point rounding (reals); NaN/inf inputs',
             expect_reach=['returned'], selftest=30,
             query_timeout_ms=60000),
